@@ -10,7 +10,8 @@ From Coq Require Import List NArith Bool.
 From Frugal Require Import Bytes Wire Skip Values Desc Spec Encode Decode Checks Tags State Bitset Alloc DescMap Conc LegacyDefs.
 From Frugal.gen Require Import Params.
 From Frugal.proofs Require Import GenOk BytesWire EncodeSpec SizeExact SkipPut DecodeSafe DecodeRefines RoundTrip Corollaries StateProofs BitsetProofs AllocProofs DescMapProofs ConcProofs BufferContract.
-From Frugal.proofs Require Import TagsProofs.
+From Frugal.proofs Require Import TagsProofs TagsStruct.
+From Coq Require Import Sorted Permutation.
 From Frugal.props Require Import Examples.
 Import ListNotations.
 
@@ -81,3 +82,49 @@ Example C12_ignored :
       mkGoField [68] GInt16 ([116;104;114;105;102;116;58;34;120;44;57;34;32] ++ [102;114;117;103;97;108;58;34;51;34]) true false ] None)
   = ROk [mkDField 3 (DT DI16 None None 0) RDefault false 3].
 Proof. vm_compute. reflexivity. Qed.
+
+(* ---- whole structs (proofs/TagsStruct.v) ---- *)
+
+(* the schema of a struct is exactly what its field tags say: each field that is not ignored
+   carries, in any of the three carriers and any spelling of its type, a field schema; the struct
+   resolves to exactly these, sorted by id, whatever the ignored fields look like *)
+Theorem C12_struct_of_schema : forall gs os,
+  Forall2 field_matches (gs_fields gs) os -> NoDup (map sp_id (somes os)) ->
+  resolve_fields gs = ROk (sort_by_id (fields_of O os)).
+Proof. exact struct_of_schema. Qed.
+Print Assumptions C12_struct_of_schema.
+
+(* equivalent spellings, field by field, behave identically *)
+Theorem C12_spellings_struct : forall gs1 gs2 os,
+  Forall2 field_matches (gs_fields gs1) os -> Forall2 field_matches (gs_fields gs2) os ->
+  resolve_fields gs1 = resolve_fields gs2.
+Proof. exact spellings_struct. Qed.
+
+(* the result is sorted by field id, strictly (ids are distinct) *)
+Theorem C12_sorted : forall gs fs,
+  resolve_fields gs = ROk fs -> StronglySorted N.lt (map d_id fs).
+Proof. exact resolve_fields_sorted. Qed.
+
+(* untagged, unexported and embedded fields are ignored: exactly the other fields appear ... *)
+Theorem C12_members : forall gs fs,
+  resolve_fields gs = ROk fs ->
+  forall d, In d fs <->
+            exists gf, nth_error (gs_fields gs) (d_index d) = Some gf /\ ignored gf = false /\
+                       resolve_one gf (d_index d) [] = ROk (Some d).
+Proof. exact resolve_fields_members. Qed.
+
+(* ... and deleting an ignored field changes nothing but the Go field positions *)
+Theorem C12_ignored_deleted : forall gs gs' fs1 gf fs2,
+  gs_fields gs = fs1 ++ gf :: fs2 -> gs_fields gs' = fs1 ++ fs2 -> ignored gf = true ->
+  schema_of (resolve_fields gs) = schema_of (resolve_fields gs').
+Proof. exact resolve_fields_ignored. Qed.
+
+Theorem C12_ignored_iff : forall gf idx seen, ignored gf = true <-> resolve_one gf idx seen = ROk None.
+Proof. exact ignored_iff. Qed.
+
+(* an accepted annotation always has the kind structure of the Go type: it only chooses list
+   versus set, i64 versus enum, and the element types *)
+Theorem C12_annotation_follows_go_type : forall vt annot def allow d rest,
+  parse_type vt annot def allow = ROk (d, rest) -> go_shape vt d.
+Proof. exact parse_type_shape. Qed.
+Print Assumptions C12_members.
